@@ -1,4 +1,4 @@
-"""VM-level witness search for C09 (`resize`, `deleteAt`, `deleteRange`, `select`, `format`): operands of every kind, run on a sqfvm built from the current tree; a crash
+"""VM-level witness search for C09 (`resize`, `deleteAt`, `deleteRange`, `select`, `format`, `sort`): operands of every kind, run on a sqfvm built from the current tree; a crash
 (non-zero exit without a result line), a hang or a wrong result is the witness."""
 import subprocess, tempfile, os
 CASES = [
@@ -41,6 +41,14 @@ CASES = [
     ('format ending in a percent sign', 'format ["a%", 7]', 'a'),
     ('format with a non-digit placeholder', 'format ["a%xb", 7]', 'ab'),
     ('format of an empty array', '{ format [] } except__ { }; 7', '7'),
+    ('sort descending on 200 sub-arrays', 'a = []; for "_i" from 1 to 200 do { a pushBack [_i] }; a sort false; [count a, a select 0, a select 199]', '[200,[200],[1]]'),
+    ('sort ascending on sub-arrays compares the elements', 'a = [[2,"b"],[1,"z"],[2,"a"]]; a sort true; a', '[[1,z],[2,a],[2,b]]'),
+    ('sort descending on sub-arrays', 'a = [[2,"b"],[1,"z"],[2,"a"]]; a sort false; a', '[[2,b],[2,a],[1,z]]'),
+    ('sort descending on equal sub-arrays', 'a = []; for "_i" from 1 to 100 do { a pushBack [7] }; a sort false; count a', '100'),
+    ('sort numbers descending', 'a = [3,1,2]; a sort false; a', '[3,2,1]'),
+    ('sort strings ascending', 'a = ["b","a","c"]; a sort true; a', '[a,b,c]'),
+    ('sort refuses sub-arrays of different structure', 'a = [[1,"a"],[2]]; { a sort true } except__ { }; count a', '2'),
+    ('sort refuses mixed types', 'a = [1,"a"]; { a sort true } except__ { }; count a', '2'),
 ]
 def search(sqfvm):
     for (name, code, want) in CASES:
